@@ -255,7 +255,12 @@ func (x *g) goal(d int) *rt.Term {
 			return Conj([]*rt.Term{rt.C("catch", rt.C(",", rt.C("n", v), thrower), x.catcher(), x.conj(d-1, 2, false)), rt.C("\\==", v, rt.I(1))})
 		}},
 		{x.f.Catch, func() *rt.Term {
-			switch x.n(0, 6, "catchkind") {
+			switch x.n(0, 7, "catchkind") {
+			case 7:
+				// the protected goal itself is the error: unbound, a number, or a conjunction holding a number
+				// (catch/3 calls its goal as call/1 does, so the error is raised inside the catch and is its to catch)
+				bad := []*rt.Term{x.v(), rt.V(int64(900 + x.n(10, 19, "freshgoal"))), rt.I(1), rt.C(",", rt.A("true"), rt.I(1)), rt.C(",", rt.C("n", x.v()), x.v())}[x.n(0, 4, "badgoal")]
+				return rt.C("catch", bad, x.catcher(), x.conj(d-1, 2, false))
 			case 0, 1, 2:
 				return rt.C("catch", x.conj(d-1, 3, x.f.Cut), x.catcher(), x.conj(d-1, 2, false))
 			case 3, 4:
@@ -569,6 +574,9 @@ func ClauseText(c *rt.Term) string {
 	names := map[int64]string{}
 	for _, id := range ids {
 		names[id] = fmt.Sprintf("V%d", id)
+		if id%3 == 1 { // a named variable may start with an underscore; it is a variable like any other (only _ is anonymous)
+			names[id] = fmt.Sprintf("_V%d", id)
+		}
 	}
 	return c.Text(names) + "."
 }
